@@ -1,5 +1,6 @@
 import NssVerif.RealInst
 import NssVerif.Model.Target
+import NssVerif.Gen.Src.C13
 import NssVerif.Lemmas.Target
 import NssVerif.Props.C03
 import Mathlib.Tactic.Ring
@@ -93,7 +94,7 @@ theorem alphaHorizon_range (R D : ℝ) (hR : 0 < R) (hD : R < D) :
   exact ⟨Real.arcsin_pos.mpr h0, Real.arcsin_lt_pi_div_two.mpr h1⟩
 
 theorem clipUnit_eq (x : ℝ) : clipUnit x = if x < -1 then -1 else if 1 < x then 1 else x := by
-  simp [clipUnit]
+  simp [clipUnit]; norm_num
 
 /-- the clip of fix F11 is invisible over ℝ (`Real.arccos` is constant outside [-1, 1]) -/
 theorem betaAngle_formula (R D nad : ℝ) : betaAngle R D nad = Real.arccos (D / R * Real.sin nad) := by
@@ -371,5 +372,46 @@ example : darkSky (-0.3 : ℝ) 0 2.6 (-0.5) (-0.1) 1.0 = true ∧      -- Sun do
   · rw [← Bool.not_eq_true, darkSky_iff]; norm_num
   · rw [← Bool.not_eq_true, darkSky_iff]; norm_num
 example : (timeOffsets 4 (86400:ℝ)).length = 4 := time_grid_length _ _
+
+/-! ### source tie: the functions translated from the Python source of the working tree ARE the model
+
+`Gen/Src/C13.lean` is regenerated from `region_geometry.py` / `too.py` on every run (harness/pytrans.py, spec
+harness/srcspecs/C13.py).  Every equality below holds by unfolding alone, for every `Scalar` instance — over ℝ (what the
+theorems above are about) and at `Float` (what the driver executes).  astropy stays a parameter on both sides: the
+altitude of the source, the Sun / Moon altitudes and the Moon phase angle are inputs of the translated functions exactly
+as they are inputs of the model.  What is NOT translated: `generate_times` (an integer range and astropy `Time`
+arithmetic) and the compression of the arrays by the two masks (`x[horizon_mask][volume_mask]`; the translation of
+`throw` is the per-instant reading, the list functions `select` / `composeMask` of the model stay tied by the
+differential runs only). -/
+
+/-- `RegionGeomToO.get_beta_angle` as translated from the source -/
+theorem src_getBetaAngle {α : Type} [Scalar α] (R D nad : α) :
+    Gen.Src.C13.getBetaAngle nad D R = betaAngle R D nad := rfl
+
+/-- `RegionGeomToO.get_path_length` as translated from the source -/
+theorem src_getPathLength {α : Type} [Scalar α] (D beta nad : α) :
+    Gen.Src.C13.getPathLength beta nad D = pathLength D beta nad := rfl
+
+/-- `RegionGeomToO.__init__` as translated from the source: Earth radius, detector radius and the horizon angle -/
+theorem src_init {α : Type} [Scalar α] (alt : α) :
+    (Gen.Src.C13.init alt).earth_radius = 6378.1 ∧ (Gen.Src.C13.init alt).core_alt = 6378.1 + alt
+      ∧ (Gen.Src.C13.init alt).alphaHorizon = alphaHorizon (6378.1 : α) (6378.1 + alt) := ⟨rfl, rfl, rfl⟩
+
+/-- `RegionGeomToO.throw` as translated from the source, for one instant at which astropy reports the source altitude
+`altRad`: nadir angle, horizon mask, emergence angle, volume mask and path length are the model's, and the instant passes
+both masks iff the model's one-instant rule `kept` holds (`times`, `altDeg`, `azDeg` are passed through) -/
+theorem src_throw {α : Type} [Scalar α] (R D limb times altRad altDeg azDeg : α) :
+    let nad := nadirOfAlt altRad
+    let r := Gen.Src.C13.throw (alphaHorizon R D) D R limb times altRad altDeg azDeg
+    r.sourceNadRad = nad ∧ r.horizon_mask = Scalar.ltb nad (alphaHorizon R D) ∧ r.sourcebeta = betaAngle R D nad
+      ∧ r.volume_mask = Scalar.ltb (betaAngle R D nad) (betaLimit R D limb)
+      ∧ r.losPathLen = pathLength D (betaAngle R D nad) nad
+      ∧ (r.horizon_mask && r.volume_mask) = kept R D limb nad
+      ∧ r.alt_deg = altDeg ∧ r.az_deg = azDeg := ⟨rfl, rfl, rfl, rfl, rfl, rfl, rfl, rfl⟩
+
+/-- `ToOEvent.sun_moon_cut` as translated from the source (too.py) is the model's `darkSky` -/
+theorem src_sunMoonCut {α : Type} [Scalar α] (sunCut moonCut minPhase sunAlt moonAlt phase : α) :
+    Gen.Src.C13.sunMoonCut sunCut moonCut minPhase sunAlt moonAlt phase
+      = darkSky sunCut moonCut minPhase sunAlt moonAlt phase := rfl
 
 end C13
